@@ -10,6 +10,14 @@ def _unescape(s):
     return s.encode("utf-8").decode("unicode_escape").encode("latin-1", "ignore").decode("utf-8", "ignore") if "\\" in s else s
 
 
+def _no_key_wait(sessions):
+    """programs that loop until a key is pressed never end in these sessions (no key is ever pressed)"""
+    def waits(t):
+        t = (t or "").upper()
+        return "INKEY$" in t and any(w in t for w in ("WHILE", "GOTO", "IF ", "FOR "))
+    return [s_ for s_ in sessions if not any(waits(c.get("text")) for c in s_["cmds"])]
+
+
 def test_sessions(repo="/repo"):
     out = []
     for path in sorted(glob.glob(os.path.join(repo, "tests", "*_test.rs"))):
@@ -24,7 +32,7 @@ def test_sessions(repo="/repo"):
             if lines:
                 out.append({"id": "test:%s:%s" % (os.path.basename(path)[:-3], name), "textual": True,
                             "cmds": [{"k": "text", "text": t} for t in lines]})
-    return out
+    return _no_key_wait(out)
 
 
 INPUT_LIKE = re.compile(r'^(\d+\s|\d+$|RUN\b|CONT\b|LIST\b|NEW\b|CLEAR\b|PRINT\b|\?|LET\b|DEF\b|DIM\b|DEFINT\b|DEFSTR\b|DEFSNG\b|DEFDBL\b|'
@@ -45,4 +53,4 @@ def doc_sessions(repo="/repo"):
             if lines:
                 out.append({"id": "doc:%s:%d" % (os.path.relpath(path, os.path.join(repo, "src", "doc")), i), "textual": True,
                             "cmds": [{"k": "text", "text": t} for t in lines]})
-    return out
+    return _no_key_wait(out)
